@@ -77,6 +77,16 @@ impl MachineState {
 
             parser.add_lines_read(prior_num_lines_read);
 
+            // layout text and comments between the last clause and the end of the input
+            // are not a clause: the read yields end_of_file, not a syntax error.
+            if let Err(err) = devour_whitespace(&mut parser.lexer) {
+                return Err(CompilationError::from(err));
+            }
+
+            if parser.lexer.reader.peek_char().is_none() {
+                return Err(CompilationError::from(ParserError::unexpected_eof()));
+            }
+
             // a lexical error leaves the reader inside the offending clause (a parser
             // error is only found after the whole clause has been consumed): skip the
             // rest of that clause, so that the next read starts behind its end token.
